@@ -254,13 +254,13 @@ func (c *Cache[K, V]) MapToCache(m map[K]V, d time.Duration) error {
 
 // IsExpired checks if a cache item is expired.
 func (c *Cache[K, V]) IsExpired(key K) bool {
-	item, err := c.Get(key)
-	if item != nil && err != nil {
-		if item.expiration > time.Now().UnixNano() {
-			return true
-		}
-	}
-	return false
+	// Get hands back either an item or an error, never both, so its result
+	// cannot tell an expired entry from a missing one: look the entry up here.
+	c.mu.RLock()
+	defer c.mu.RUnlock()
+
+	item, ok := c.items[key]
+	return ok && item.expired()
 }
 
 // cleanup runs the cache cleanup function at the specified time interval an removes all the expired cache items.
